@@ -6,7 +6,7 @@
  * cfg: backend "epoll"|"epollcl"|"poll"|"select", sigfd 0|1, mode "snap"|"real",
  *      fdnum [fd number of slot 1, ...], kind ["sp"|"tcp"|"pr"|"pw", ...], keeper [slot,...]
  * ops: add{e,fd,m,et} del{e} close{fd} reopen{fd}
- *      wait            one loop iteration (EVLOOP_NONBLOCK|EVLOOP_NO_EXIT_ON_EMPTY)
+ *      wait            one loop iteration (EVLOOP_ONCE|EVLOOP_NONBLOCK|EVLOOP_NO_EXIT_ON_EMPTY)
  *      pw drain fill pdrain pshut pclose prst {fd}   environment (peer) operations
  *
  * The backend's wait system call is wrapped at link time:
@@ -15,7 +15,8 @@
  *              sets) and returns 0 without waiting           -> obs.k
  *   mode real: the wrapper performs the real call, and records interest set and
  *              what the kernel reported; before the loop the driver probes every
- *              slot with an independent zero-timeout poll(2) -> obs.p, obs.rep, obs.cb
+ *              slot with an independent zero-timeout poll(2), and again after it
+ *              -> obs.p, obs.p2, obs.rep, obs.cb
  * No oracle logic here.
  */
 #include <event2/event.h>
@@ -351,6 +352,9 @@ static void run_scenario(jval *sc)
 			for (int t = 1; t <= nslots; t++) fprintf(out, "%s%d", t > 1 ? "," : "", snap_mode ? 0 : probe_slot(t));
 			fprintf(out, "],");
 			r = event_base_loop(base, EVLOOP_ONCE | EVLOOP_NONBLOCK | EVLOOP_NO_EXIT_ON_EMPTY);
+			fprintf(out, "\"p2\":[");
+			for (int t = 1; t <= nslots; t++) fprintf(out, "%s%d", t > 1 ? "," : "", snap_mode ? 0 : probe_slot(t));
+			fprintf(out, "],");
 			fprintf(out, "\"r\":%ld,\"nw\":%d,\"k\":%s,\"rep\":[%.*s],\"cb\":[%.*s]", r, nwaits, nwaits ? kbuf : "\"nowait\"",
 			    (int)rlen, rbuf, (int)clen, cbuf);
 		} else {
